@@ -80,6 +80,28 @@ def parse_schema(ans):
     return p[2], rows, extra
 
 
+def pad_sweep(u, case):
+    """every padding length 0..63 in front of a 64-aligned block and of a 32-aligned structure: the stress
+    definition KD3 { s: String, v: Vec<KZ8 (align 64)>, z: KZ6 (align 32), t: u8 } with strings of every length"""
+    for i, t in enumerate(u.types):
+        if isinstance(t, Adt) and t.d.name.endswith('D3') and not t.d.module and t.d.name.startswith('K'):
+            for n in range(64):
+                v = '{s"%s",[{%d,%d,},{7,8,},],{%d,},%d,}' % ('41' * n, n, 1000 + n, n % 256, (n * 3) % 256)
+                case(i, 0, '-', v, 'pad-sweep')
+        # KD5<A> { s: String, a: A, t: u8 } with A a vector / boxed slice of zero-copy items: borrowed in ε-copy results
+        if isinstance(t, Adt) and t.d.name == 'KD5' and not t.d.module:
+            inner = t.targs[0].t.d.name
+            item = {'KZE2': lambda n: '#0(),#1(%d,),#2(%d,),' % (n % 256, 1000 + n), 'KZ8': lambda n: '{%d,%d,},{7,8,},' % (n, 1000 + n),
+                    'KZ6': lambda n: '{%d,},{9,},' % (n % 256)}[inner]
+            for n in range(64 if inner != 'KZE2' else 16):
+                case(i, 0, '-', '{s"%s",[%s],%d,}' % ('41' * n, item(n), n % 256), 'pad-sweep')
+        # KD4 { s: String, v: Vec<KZE2 (zero-copy enum, alignment from the 4-byte tag)>, t: u8 }
+        if isinstance(t, Adt) and t.d.name.endswith('D4') and not t.d.module and t.d.name.startswith('K'):
+            for n in range(16):
+                v = '{s"%s",[#0(),#1(%d,),#2(%d,),],%d,}' % ('41' * n, n, 1000 + n, n)
+                case(i, 0, '-', v, 'pad-sweep')
+
+
 def gen_cases(prop, u, seed, tier, probe=None):
     """probe(lines) -> answers of the implementation (used to aim mutations at tags and lengths)"""
     rng = random.Random('%s-%s' % (seed, prop))
@@ -94,6 +116,7 @@ def gen_cases(prop, u, seed, tier, probe=None):
 
     if prop == 'C03':
         import valterm
+        pad_sweep(u, case)
         plan = []
         for i, t in enumerate(u.types):
             for v in values_for(t, rng, 2 if quick else 5):
@@ -120,6 +143,7 @@ def gen_cases(prop, u, seed, tier, probe=None):
                 else:
                     cs.add('alloc %d 0 %s' % (i, v), kind='alloc', ti=i, val=v, group=None, factor=1, family='alloc-plain')
     elif prop in ('C01', 'C02'):
+        pad_sweep(u, case)
         for i, t in enumerate(u.types):
             for v in values_for(t, rng, nvals):
                 case(i, 0, '-', v, 'roundtrip')
@@ -150,6 +174,10 @@ def gen_cases(prop, u, seed, tier, probe=None):
             b = bytes(rng.randrange(256) for _ in range(n))
             cs.add('xxh %s' % b.hex(), kind='xxh', family='xxh')
     elif prop == 'C07':
+        def sweep_case(i, r, mut, v, family):
+            case(i, r, mut, v, family)
+            cs.add('schema %d %s' % (i, v), kind='schema', ti=i, val=v, family='schema-pad-sweep')
+        pad_sweep(u, sweep_case)
         for i, t in enumerate(u.types):
             cs.add('layout %d' % i, kind='layout', ti=i, family='layout')
             for v in values_for(t, rng, nvals):
@@ -408,6 +436,9 @@ def gen_cases(prop, u, seed, tier, probe=None):
                 if k < 0: continue
                 case_spec = 'k=%d,m=%s,int=%s,ff=0' % (k, rng.choice(['-', '1', '3', '8']), rng.choice(['-', '2', '5']))
                 cs.add('wfail %d %s %s' % (i, case_spec, v), kind='wfail', ti=i, val=v, k=k, total=n, ff=False, family='fail-at-k')
+                # a transient failure: the sink refuses one call after k bytes and accepts everything afterwards
+                # (it obeys the Write contract); the serializer must stop at the first error all the same
+                cs.add('wfail %d k=%d,once=1,ff=0 %s' % (i, k, v), kind='wfail', ti=i, val=v, k=k, total=n, ff=False, family='transient-fail-at-k')
             cs.add('wfail %d k=-,m=1,int=2,ff=0 %s' % (i, v), kind='wfail', ti=i, val=v, k=None, total=n, ff=False, family='split-retry')
             cs.add('wfail %d k=-,m=5,int=3,ff=0 %s' % (i, v), kind='wfail', ti=i, val=v, k=None, total=n, ff=False, family='split-retry')
             cs.add('wfail %d k=-,ff=1 %s' % (i, v), kind='wfail', ti=i, val=v, k=None, total=n, ff=True, family='flush-fail')
